@@ -9,11 +9,12 @@
 use super::*;
 use crate::datastructures::messages::MAX_DATA_LEN;
 
+/// a frame found in an action: its length and addressing (its content is recorded at serialization, see
+/// datastructures::messages::verif_kani_msg::verif_recording_serialize)
 #[derive(Clone, Copy, PartialEq, Debug)]
 pub(crate) struct Frame {
     pub(crate) len: usize,
     pub(crate) link_local: bool,
-    pub(crate) head: [u8; 64],
 }
 #[derive(Clone, Copy, PartialEq, Debug)]
 pub(crate) struct ActionSummary {
@@ -41,13 +42,8 @@ pub(crate) const EMPTY: ActionSummary = ActionSummary {
 pub(crate) static mut LAST: ActionSummary = EMPTY;
 pub(crate) static mut N_BUILT: u32 = 0;
 
-macro_rules! copy_prefix {
-    ($data:ident, $head:ident; $($i:literal)*) => { $( if $i < $data.len() { $head[$i] = $data[$i]; } )* };
-}
 fn frame_of(data: &[u8], link_local: bool) -> Frame {
-    let mut head = [0u8; 64];
-    copy_prefix!(data, head; 0 1 2 3 4 5 6 7 8 9 10 11 12 13 14 15 16 17 18 19 20 21 22 23 24 25 26 27 28 29 30 31 32 33 34 35 36 37 38 39 40 41 42 43 44 45 46 47 48 49 50 51 52 53 54 55 56 57 58 59 60 61 62 63);
-    Frame { len: data.len(), link_local, head }
+    Frame { len: data.len(), link_local }
 }
 fn note(s: &mut ActionSummary, a: &PortAction<'_>) {
     s.n += 1;
